@@ -67,41 +67,43 @@ size_t vg_buf_len;
     (((const char *) (p))[0] == 0 || VREMAIN(p) < 3 || ((const char *) (p))[1] == 0 || ((const char *) (p))[2] != 0 || (r) == 2))
 
 #ifdef VERIF_OWN_STRCHR
-static char *vg_search(const char *s, int c, _Bool may_fail_on_nul)
+static char *vg_search(const char *s, int c)
 {
-    if (VG_IN_TXT(s)) {
-        if (nondet_bool()) {
-            __CPROVER_assume((char) c != 0 || may_fail_on_nul);
-            return (char *) 0;
-        }
-        size_t r = nondet_size_t();
-        __CPROVER_assume(__CPROVER_POINTER_OFFSET(s) <= r && r <= vg_txt_len && vg_txt[r] == (char) c);
-        return (char *) vg_txt + r;
-    }
-    size_t n = strlen(s);
     if (nondet_bool()) {
-        __CPROVER_assume((char) c != 0 || may_fail_on_nul);
+        __CPROVER_assume((char) c != 0);
         return (char *) 0;
     }
     size_t r = nondet_size_t();
-    __CPROVER_assume(r <= n && s[r] == (char) c);
-    return (char *) s + r;
+#ifndef VERIF_STRCHR_TEXT_ONLY
+    if (!VG_IN_TXT(s)) {
+        size_t n = strlen(s);
+        __CPROVER_assume(r <= n && s[r] == (char) c);
+        return (char *) s + r;
+    }
+#endif
+    __CPROVER_assume(__CPROVER_POINTER_OFFSET(s) <= r && r <= vg_txt_len && vg_txt[r] == (char) c);
+    return (char *) vg_txt + r;
 }
+/* units whose function searches nothing but the ghost text define VERIF_STRCHR_TEXT_ONLY: then
+ * "argument lies inside the text" is an obligation for every call and there is no other case */
+#ifdef VERIF_STRCHR_TEXT_ONLY
+# define VG_SEARCH_ARG_OK(s) (VG_IN_TXT(s))
+#else
+# define VG_SEARCH_ARG_OK(s) (!__CPROVER_same_object((s), vg_txt) || __CPROVER_POINTER_OFFSET(s) <= vg_txt_len)
+#endif
 char *strchr(const char *s, int c)
 {
     __CPROVER_assert(s != NULL, "strchr: argument not NULL");
     __CPROVER_assert(__CPROVER_r_ok(s, 1), "strchr: argument readable");
-    __CPROVER_assert(!__CPROVER_same_object(s, vg_txt) || __CPROVER_POINTER_OFFSET(s) <= vg_txt_len,
-                     "strchr: argument lies inside the NUL-terminated text (not in the slack behind it)");
-    return vg_search(s, c, 0);
+    __CPROVER_assert(VG_SEARCH_ARG_OK(s), "strchr: argument lies inside the NUL-terminated text (not in the slack behind it)");
+    return vg_search(s, c);
 }
 char *strrchr(const char *s, int c)
 {
     __CPROVER_assert(s != NULL, "strrchr: argument not NULL");
     __CPROVER_assert(__CPROVER_r_ok(s, 1), "strrchr: argument readable");
-    __CPROVER_assert(!__CPROVER_same_object(s, vg_txt) || __CPROVER_POINTER_OFFSET(s) <= vg_txt_len,
-                     "strrchr: argument lies inside the NUL-terminated text");
-    return vg_search(s, c, 0);
+    __CPROVER_assert(VG_SEARCH_ARG_OK(s), "strrchr: argument lies inside the NUL-terminated text (not in the slack behind it)");
+    return vg_search(s, c);
 }
 char *index(const char *s, int c) { return strchr(s, c); }
 char *rindex(const char *s, int c) { return strrchr(s, c); }
